@@ -137,7 +137,7 @@ func (c C20) Run(t *tape.Tape, opt core.RunOpt) (res core.Result) {
 		w.ResolverReenters = 1 + t.Draw(2)
 		res.Count("probe_subscription_resolver_calls_the_registry", 1)
 	}
-	family := t.Draw(6)
+	family := t.Draw(7)
 	nextSid, nextEv := 1, 1
 	newSub := func(topic string) *workload.SimSub {
 		sb := &workload.SimSub{ID: nextSid, Topic: topic, SelIndex: t.Draw(len(workload.SubSelections)), Alias: t.Bool(1, 3), Named: t.Bool(1, 3), UseVar: t.Bool(1, 2)}
@@ -188,6 +188,25 @@ func (c C20) Run(t *tape.Tape, opt core.RunOpt) (res core.Result) {
 			plans = append(plans, []c20Op{{Kind: "pub", Topic: "a", N: nextEv}})
 			nextEv++
 		}
+	case 6: // one caller registers several subscribers whose selection takes an argument from a variable, out of its one variables map, while others publish
+		w.ResolverEvents, w.ListEvents = true, false
+		vars := map[string]interface{}{}
+		var subs []c20Op
+		for i := 0; i < 2+t.Draw(3); i++ {
+			sb := newSub([]string{"", "a"}[t.Draw(2)])
+			sb.Near, sb.NearVars = true, vars
+			subs = append(subs, c20Op{Kind: "sub", Sid: sb.ID})
+		}
+		plans = append(plans, subs)
+		for k := 0; k < 1+t.Draw(2); k++ {
+			var pubs []c20Op
+			for i := 0; i < 1+t.Draw(3); i++ {
+				pubs = append(pubs, c20Op{Kind: []string{"pub", "pubmut"}[t.Draw(2)], Topic: "a", N: nextEv})
+				nextEv++
+			}
+			plans = append(plans, pubs)
+		}
+		res.Count("probe_selection_with_variable_from_callers_own_map", 1)
 	case 5: // a crowd: one publish matches sixteen subscribers and more, several of them fail
 		n := 16 + t.Draw(6)
 		for i := 0; i < n; i++ {
@@ -279,7 +298,7 @@ func (c C20) Run(t *tape.Tape, opt core.RunOpt) (res core.Result) {
 				switch d {
 				case 0, 1:
 					sb := newSub(topic())
-					if t.Bool(1, 4) {
+					if t.Bool(1, 3) || (len(taskVars) > 0 && t.Bool(1, 2)) {
 						// the selection takes an input-object argument from a variable;
 						// the task passes its own variables map and keeps using it
 						sb.Near, sb.NearVars = true, taskVars
